@@ -71,7 +71,14 @@ def pack(spec, cfg, wd, mode="packfile", sortfile=None, extra_args=(), timeout=3
             f.write(sortfile)
         argv += ["-S", os.path.join(wd, "sort.txt")]
     argv += list(extra_args) + [img]
-    r = run_tool_hangcheck(argv, timeout=timeout, env=env)
+    r = run_tool(argv, timeout=timeout, env=env)
+    if r.timeout:
+        # hang rule: re-run alone with a 10x longer limit (after removing the partial output of the killed run)
+        try:
+            os.unlink(img)
+        except OSError:
+            pass
+        r = run_tool(argv, timeout=timeout * 10, env=env)
     return r, img, argv
 
 
